@@ -474,6 +474,48 @@ impl<'data> SectionRules<'data> {
     }
 }
 
+/// Builds a rule table from `(section pattern, file pattern, keep)` triples, in order, and looks
+/// up each `(section name, file name)` query. Returns, per query, the index of the rule whose
+/// outcome was returned together with its keep flag, or `None` if no rule matched. `Err` if a
+/// pattern is rejected.
+#[cfg(feature = "verif_hooks")]
+pub(crate) fn verif_lookup(
+    rules: &[(&[u8], Option<&[u8]>, bool)],
+    queries: &[(&[u8], Option<&[u8]>)],
+) -> Result<Vec<Option<(usize, bool)>>> {
+    let mut built = Vec::new();
+    for (i, (pattern, file_pattern, keep)) in rules.iter().enumerate() {
+        built.push(SectionRule::new(
+            pattern,
+            *file_pattern,
+            SectionRuleOutcome::Section(SectionOutputInfo {
+                section_id: OutputSectionId::from_usize(i),
+                must_keep: *keep,
+            }),
+        )?);
+    }
+    let table = SectionRules::from_rules(&built);
+    let header = crate::elf::SectionHeader {
+        sh_name: Default::default(),
+        sh_type: Default::default(),
+        sh_flags: Default::default(),
+        sh_addr: Default::default(),
+        sh_offset: Default::default(),
+        sh_size: Default::default(),
+        sh_link: Default::default(),
+        sh_info: Default::default(),
+        sh_addralign: Default::default(),
+        sh_entsize: Default::default(),
+    };
+    Ok(queries
+        .iter()
+        .map(|(name, file)| match table.lookup(name, *file, &header) {
+            SectionRuleOutcome::Section(info) => Some((info.section_id.as_usize(), info.must_keep)),
+            _ => None,
+        })
+        .collect())
+}
+
 /// Returns a hash of the first four bytes of the supplied name or `None` if the name is shorter
 /// than 4 bytes.
 #[inline(always)]
